@@ -11,7 +11,8 @@ LEVEL_TEXT = ("Every ordered selection of the six option groups with both spelli
               "all 75 973) x keyword case, boundary integer values rotated through every slot, alone / schema-qualified / between tables "
               "whose columns are named like the sequence keywords, is parsed by the real library and compared with the value the "
               "statement was rendered from."
-              " Values include integers a double cannot hold (both signs), and 12 spellings of (schema, name) incl. quoted first parts, under both normalize_names settings.")
+              " Values include integers a double cannot hold (both signs), and 12 spellings of (schema, name) incl. quoted first parts, under both normalize_names settings."
+              " ALTER statements placed right after the sequence must still reach their table.")
 LEVEL_NOTE = "Integer values come from a fixed boundary set {0,1,-1,5,+-2^31,2^63-1,-2^63}; other magnitudes are not enumerated."
 RULE = ("case = (ordered option selection, spelling per option, value rotation, keyword case, context); expected dict known by "
         "construction; non-trivial = at least one option; distinct by rendered statement")
